@@ -318,7 +318,7 @@ PROPS = {
    technique='exhaustive differential exploration over the configuration lattice: the same operation table (the drivers of the other properties, with their complete quick/thorough input domains) is compiled once per non-semantic configuration and every per-operation observation digest must equal the baseline build; a differing digest is bisected to the first differing input',
    text='Every non-semantic macro / language level / optimisation level / compiler is one point of the configuration lattice and one separate build of the same driver sources from the working tree. Each driver op accumulates a digest of every value GLM returned on every enumerated input (C01: every scalar and vector result of every function x L x T x Q; C11/C14: the std-versus-fallback sensitive functions on the float lattices; integer, packing, quaternion and geometric drivers). Digest equality with the baseline is required for every (op, configuration); results are expressed through named members so storage-order switches are compared by value.',
    rule='configurations x operation table (see coverage.operation_table) x the quick (thorough) domains of those drivers; evaluations are summed over all builds; a case is non-trivial as defined by its driver.'),
- 'C04': dict(src='drivers/c04.cpp', level='exploration', configs=['default', 'quat_wxyz'], digest_equal=['named_member_digest_float', 'named_member_digest_double'],
+ 'C04': dict(src='drivers/c04.cpp', level='exploration', configs=['default', 'quat_wxyz', 'quat_ctor_xyzw'], digest_equal=['named_member_digest_float', 'named_member_digest_double'],
    technique='exhaustive enumeration of a finite rotation set (integer quaternions, icosians, axis-angle lattice, 10^-j neighbourhoods of every branch boundary and gimbal-lock set, each +-1..3 ulp) x vector lattice through every quaternion/matrix/axis-angle/Euler entry point, against a long-double Hamilton/Rodrigues reference, in both quaternion storage orders',
    text='q*v, mat3/4_cast, quat_cast (all four largest-component branches and ties), products, angle/axis/angleAxis, eulerAngles/quat(euler), qua(u,v) incl. parallel/opposite/nearly-opposite pairs, inverse/conjugate/normalize, all 12 gtx eulerAngleABC orders + 6 two-angle forms + yawPitchRoll/orientate with extractEulerAngle round trips, dual quaternions; the same source is built with the default and the WXYZ layout and a digest of every result expressed through named members must be identical in both.',
    rule='ROT (57 800 quick / 152 812 thorough quaternions) x VEC3L; ROT_small^2 for products; 55^3 (87^3) angle triples incl. +-pi/2 +-10^-j; NEAR_OPPOSITE pairs on both sides of the fallback threshold. Non-trivial = case inside the stated domain (unit quaternion up to rounding, non-degenerate vectors).'),
@@ -326,7 +326,7 @@ PROPS = {
    technique='exhaustive enumeration of the parameter lattice (l<r, b<t, near<far, fovy, aspect, width/height, viewports) x every builder variant in all four clip-control build configurations; oracle = the view-volume corners must map to the clip-cube corners, dispatch must be bit-identical to the selected suffixed variant',
    text='Every ortho/frustum/perspective/perspectiveFov/infinitePerspective/tweakedInfinitePerspective variant (RH/LH x NO/ZO) maps its eight view-volume corners (infinite: near corners + depth monotone and bounded along 2^k.near) to the clip cube; perspective == symmetric frustum; perspectiveFov == perspective(w/h); in each of the four macro configurations the unsuffixed and half-suffixed builders are bit-identical to the fully suffixed variant the macros select; project/unProject/pickMatrix against the formula, mutual inverses, cube -> viewport x [0,1].',
    rule='full product of the DESIGN section C08 parameter grids (quick) / denser grids (thorough), float and double, in each configuration; cases whose error bound cannot be formed (singular to working precision) are counted trivial.'),
- 'C09': dict(src='drivers/c09.cpp', level='exploration', configs=['default', 'lh'], flags=['-DC09_RECOMPOSE_DOUBLE'],
+ 'C09': dict(src='drivers/c09.cpp', level='exploration', configs=['default', 'lh', 'zo', 'lh_zo'], flags=['-DC09_RECOMPOSE_DOUBLE'],
    technique='exhaustive enumeration of base matrices x vectors x axes x angle ladders x shear parameters through every transform builder, against M * E with E built entrywise in long double; lookAt frames and TRS(+skew,+perspective) compositions through decompose/recompose; default and left-handed builds',
    text='translate/rotate/scale/shear (fast and _slow forms), gtx transform/transform2/rotate_vector/rotate_normalized_axis/matrix_transform_2d/matrix_interpolation helpers equal M times the elementary matrix; lookAtRH/LH are rigid, send eye to 0, the view direction to -z/+z and up into the +y half-plane, and lookAt follows the configured handedness; recompose(decompose(M)) == M over rotation set x scales x translations x skews x perspective kinds with every quaternion-extraction branch reached.',
    rule='M(36 base matrices) x VEC3L(378) x 80 axes x 133 (805) angles x shear grids; 3.39M (31M) TRS compositions; invalid lookAt frames skipped (trivial).'),
@@ -338,7 +338,7 @@ PROPS = {
    technique='exhaustive enumeration of vector lattices ({-2..2}^L, tagged vectors, 2^+-20 scalings, unit-vector angle ladders, nearly-degenerate pairs, critical refraction ratios and both float neighbours) for L=1..4 and the scalar overloads, against long-double definitions',
    text='dot, length, distance, cross (determinant formula, orthogonality, anti-commutativity), normalize, reflect (formula, length preservation, involution), refract (Snell, exactly zero on total internal reflection, branch decided exactly where k is exactly computable), faceforward (sign decided exactly where certain), gtx norm/projection/perpendicular/orthonormalize/vector_angle/closest_point/normal/mixed_product, float and double.',
    rule='VSET^2, NEAR pairs, UNIT^2 x ETA, FFSPEC; degenerate inputs (zero vectors, parallel pairs where the function is undefined) skipped as trivial.'),
- 'C13': dict(src='drivers/c13.cpp', level='exploration',
+ 'C13': dict(src='drivers/c13.cpp', level='exploration', configs=['default', 'quat_ctor_xyzw'],
    technique='exhaustive enumeration of quaternion pairs (rotation table x axes x a separation ladder from 1e-9 to pi-1e-9 that hits every float on both sides of the linear-fallback switch and of cos=0, both signs) x interpolation factors x spin counts, against the great-circle point evaluated in long double',
    text='slerp (end points, unit norm, on the arc, shorter arc, angular position t.Omega, never NaN, symmetry), mix (oriented arc, conditioning-aware), slerp with spins, lerp, shortMix, fastMix, squad, dual-quaternion lerp; both sides of every code branch counted.',
    rule='PAIRS (42 336 quick / 397 488 thorough) + ROT^2 x t13 (x k=-3..3); cases beyond the stated separation for mix/fastMix are trivial.'),
